@@ -21,7 +21,7 @@ Ltac zprop := repeat match goal with
   | H : negb _ = false |- _ => apply negb_false_iff in H
   end.
 
-Ltac cfields := cbn [chst conns cstates g_closed g_owed set_chst set_conns set_closed set_cstate] in *.
+Ltac cfields := cbn [chst conns cstates g_closed g_owed lis set_chst set_conns set_closed set_cstate set_lis set_owed add_cstate] in *.
 
 Ltac ctstep_inv H :=
   match type of H with ctstep _ ?p _ = Some _ => destruct p end;
@@ -183,6 +183,13 @@ Proof.
     + intros Hx. cconsts. lia.
 Qed.
 
+Lemma IG_lis : forall s b, I_ch s -> G_ch s (set_lis s b) /\ I_ch (set_lis s b).
+Proof.
+  intros s b (Hr & Hin & Hrng & Hd1 & Hd2). split.
+  - unfold G_ch. cfields. repeat split; auto; try lia. intros. unfold cstate. cfields. lia.
+  - unfold I_ch. cfields. refine (conj Hr (conj Hin (conj Hrng (conj Hd1 Hd2)))).
+Qed.
+
 Lemma update_to_cases : forall m chState,
   let u := update_to m chState in
   (u = hCl /\ kCl <= m) \/ (u = hIC /\ kIC <= m /\ chState = hSC) \/ u = 0.
@@ -221,12 +228,22 @@ Proof.
     rewrite Z.eqb_refl in HA3. pose proof (Hrng d (Hin d Hd)). cconsts. lia.
   - destruct HA as (HA1 & HA2 & HA3). intros Hx d Hd. specialize (HA3 d Hd).
     destruct HA1 as [->| ->]; [replace (hIC =? hCl) with false in HA3 by reflexivity; exact HA3|rewrite Z.eqb_refl in HA3; cconsts; lia].
+  (* PSrv: refused by the state test (the listener is set all the same) *)
+  - apply IG_lis; exact HI.
+  (* PSrv: Client -> Listening *)
+  - destruct (IG_lis s true HI) as [_ I1]. zprop.
+    assert (Hc : chst s = hClient) by assumption.
+    destruct (IG_set_chst (set_lis s true) hListening I1) as [G2 I2].
+    + cfields. rewrite Hc. cconsts. lia.
+    + intros Hx. cconsts. lia.
+    + intros Hx. cconsts. lia.
+    + split; [exact G2|exact I2].
 Qed.
 
 Definition ch_Inv (s : csys) : Prop :=
   I_ch (csh s) /\ forall n p, nth_error (cthr s) n = Some p -> A_ch (csh s) p.
 
-Lemma IG_owed : forall s o, I_ch s -> let s' := mkC (chst s) (conns s) (cstates s) (g_closed s) o in G_ch s s' /\ I_ch s'.
+Lemma IG_owed : forall s o, I_ch s -> let s' := set_owed s o in G_ch s s' /\ I_ch s'.
 Proof.
   intros s o (Hr & Hin & Hrng & Hd1 & Hd2). cbv zeta. split.
   - unfold G_ch. cfields. repeat split; auto; try lia. intros. unfold cstate. cfields. lia.
@@ -234,11 +251,11 @@ Proof.
 Qed.
 
 Lemma IG_newconn : forall s, I_ch s ->
-  let s' := mkC (chst s) (conns s) (cstates s ++ [kA]) (g_closed s) (g_owed s) in G_ch s s' /\ I_ch s'.
+  let s' := add_cstate s kA in G_ch s s' /\ I_ch s'.
 Proof.
   intros s (Hr & Hin & Hrng & Hd1 & Hd2). cbv zeta.
   assert (Hold : forall c, (c < length (cstates s))%nat ->
-            cstate (mkC (chst s) (conns s) (cstates s ++ [kA]) (g_closed s) (g_owed s)) c = cstate s c).
+            cstate (add_cstate s kA) c = cstate s c).
   { intros c Hc. unfold cstate. cfields. apply app_nth1. exact Hc. }
   split.
   - unfold G_ch. cfields. rewrite app_length. cbn [length]. repeat split; auto; try lia.
@@ -274,6 +291,17 @@ Proof.
       destruct (Nat.eqb d c) eqn:E; [apply Nat.eqb_eq in E; subst; cconsts; lia|exact Hd2].
 Qed.
 
+Lemma IG_listen : forall s, I_ch s -> chst s = hClient ->
+  G_ch s (set_chst (set_lis s true) hListening) /\ I_ch (set_chst (set_lis s true) hListening).
+Proof.
+  intros s HI Hc. destruct (IG_lis s true HI) as [_ I1].
+  destruct (IG_set_chst (set_lis s true) hListening I1) as [G2 I2].
+  - cfields. rewrite Hc. cconsts. lia.
+  - intros Hx. cconsts. lia.
+  - intros Hx. cconsts. lia.
+  - split; [exact G2|exact I2].
+Qed.
+
 Lemma ch_step : forall s l s', ch_Inv s -> cstep s l = Some s' -> G_ch (csh s) (csh s') /\ ch_Inv s'.
 Proof.
   intros s l s' [HI HA] Hs.
@@ -283,9 +311,8 @@ Proof.
     intros n q Hn. apply nth_error_snoc in Hn. destruct Hn as [[_ Hn]|[_ ->]]; [|exact Hp].
     eapply A_ch_stable; eauto. }
   destruct l; cbn [cstep] in Hs.
-  - destruct (chst (csh s) =? hClient) eqn:E; [|discriminate]. inversion Hs; subst; clear Hs. zprop.
-    destruct (IG_set_chst (csh s) hListening HI) as [HG HI']; try (rewrite E; cconsts; lia);
-      try (intros Hx; cconsts; lia).
+  - destruct ((chst (csh s) =? hClient) && negb (lis (csh s))) eqn:E; [|discriminate]. inversion Hs; subst; clear Hs. zprop.
+    destruct (IG_listen (csh s) HI) as [HG HI']; [assumption|].
     split; [exact HG|]. split; [exact HI'|]. cbn [csh cthr]. intros n q Hn. eapply A_ch_stable; eauto.
   - inversion Hs; subst; clear Hs. destruct (IG_newconn (csh s) HI) as [HG HI']. cbv zeta in HG, HI'.
     apply Hadd; auto. cbn [A_ch]. cfields. rewrite app_length. cbn [length]. lia.
@@ -305,6 +332,8 @@ Proof.
     split; [exact HG|]. split; [exact HI'|]. cbn [csh cthr].
     intros n q Hn. apply nth_error_upd in Hn. destruct Hn as [[_ ->]|[_ Hn]]; [exact HA'|].
     eapply A_ch_stable; eauto.
+  - inversion Hs; subst; clear Hs. apply Hadd; [apply G_ch_refl|exact HI|exact I].
+  - inversion Hs; subst; clear Hs. apply Hadd; [apply G_ch_refl|exact HI|exact I].
 Qed.
 
 Lemma ch_inv : forall s, Reach cstep cinit s -> ch_Inv s.
@@ -369,8 +398,8 @@ Proof.
   assert (Hadd : forall p, cowing p = false -> count_if cowing (cthr s ++ [p]) = count_if cowing (cthr s)).
   { intros p Hp. rewrite count_if_app. unfold count_if at 2. cbn [filter]. rewrite Hp. cbn. lia. }
   unfold cowed in *. destruct l; cbn [cstep] in Hs.
-  - destruct (chst (csh s) =? hClient) eqn:E; [|discriminate]. inversion Hs; subst; clear Hs. cbn [csh cthr]. cfields.
-    zprop. rewrite E in IH. exact IH.
+  - destruct ((chst (csh s) =? hClient) && negb (lis (csh s))) eqn:E; [|discriminate]. inversion Hs; subst; clear Hs. cbn [csh cthr]. cfields.
+    zprop. match goal with E : chst _ = hClient |- _ => rewrite E in IH end. exact IH.
   - inversion Hs; subst; clear Hs. cbn [csh cthr]. cfields. rewrite Hadd by reflexivity. exact IH.
   - destruct ((c <? length (cstates (csh s)))%nat && (cstate (csh s) c <? v) && (v <=? kCl)); [|discriminate].
     inversion Hs; subst; clear Hs. cbn [csh cthr]. cfields. exact IH.
@@ -384,6 +413,8 @@ Proof.
     pose proof (csignal_tstep _ _ _ _ _ HI (HA _ _ Ep) Et) as Hd.
     pose proof (count_if_upd cowing (cthr s) tid p p' Ep) as Hc.
     unfold b2z in *. destruct (cowing p), (cowing p'); lia.
+  - inversion Hs; subst; clear Hs. cbn [csh cthr]. rewrite Hadd by reflexivity. exact IH.
+  - inversion Hs; subst; clear Hs. cbn [csh cthr]. rewrite Hadd by reflexivity. exact IH.
 Qed.
 
 Lemma cclosed_tstep : forall s p arg s' p', ctstep s p arg = Some (s', p') -> g_closed s <= g_closed s'.
@@ -398,7 +429,7 @@ Lemma cclosed_nonneg : forall s, Reach cstep cinit s -> 0 <= g_closed (csh s).
 Proof.
   apply reach_ind; [cbn; lia|].
   intros s l s' _ IH Hs. destruct l; cbn [cstep] in Hs.
-  - destruct (chst (csh s) =? hClient); [|discriminate]. inversion Hs; subst. cbn [csh]. cfields. exact IH.
+  - destruct ((chst (csh s) =? hClient) && negb (lis (csh s))); [|discriminate]. inversion Hs; subst. cbn [csh]. cfields. exact IH.
   - inversion Hs; subst. cbn [csh]. cfields. exact IH.
   - destruct ((c <? length (cstates (csh s)))%nat && (cstate (csh s) c <? v) && (v <=? kCl)); [|discriminate].
     inversion Hs; subst. cbn [csh]. cfields. exact IH.
@@ -408,6 +439,8 @@ Proof.
   - destruct (nth_error (cthr s) tid) as [p|]; [|discriminate].
     destruct (ctstep (csh s) p arg) as [[sh' p']|] eqn:Et; [|discriminate].
     inversion Hs; subst. cbn [csh]. pose proof (cclosed_tstep _ _ _ _ _ Et). lia.
+  - inversion Hs; subst. exact IH.
+  - inversion Hs; subst. exact IH.
 Qed.
 
 (* SIGNAL ONCE (channel).  ch.closed is closed at most once; never while the state is not
@@ -475,7 +508,7 @@ Proof.
     destruct (IH c Hc Hk) as [Ho|[n Hn]]; [left; rewrite E2; exact Ho|right; exists n].
     destruct Hn as [Hn|Hn]; [left|right]; apply nth_error_snoc_old; exact Hn. }
   destruct l; cbn [cstep] in Hs.
-  - destruct (chst (csh s) =? hClient); [|discriminate]. inversion Hs; subst; clear Hs.
+  - destruct ((chst (csh s) =? hClient) && negb (lis (csh s))); [|discriminate]. inversion Hs; subst; clear Hs.
     intros c Hc Hk. cbn [csh cthr] in *. cfields. exact (IH c Hc Hk).
   - inversion Hs; subst; clear Hs. apply Hold; try reflexivity.
     intros c Hc. unfold cstate. cfields. apply app_nth1. apply Hin. exact Hc.
@@ -511,6 +544,8 @@ Proof.
         rewrite Ec in Et. inversion Et; subst. right. exists tid. right. apply nth_error_upd_same. exact Hlt.
       * exfalso. exact (F4 c eq_refl Hc).
     + right. exists n. rewrite !nth_error_upd_other by exact Hne. exact Hn.
+  - inversion Hs; subst; clear Hs. apply Hold; reflexivity.
+  - inversion Hs; subst; clear Hs. apply Hold; reflexivity.
 Qed.
 
 Definition chopeful (p : cpc) : bool :=
@@ -600,7 +635,7 @@ Proof.
     { intros p Hp. destruct (IH Hp) as [H|[H|[n [q [Hn Hq]]]]]; auto.
       right. right. exists n, q. split; [apply nth_error_snoc_old; exact Hn|exact Hq]. }
     destruct l; cbn [cstep] in Hs.
-    + destruct (chst (csh s) =? hClient); [|discriminate]. inversion Hs; subst; clear Hs.
+    + destruct ((chst (csh s) =? hClient) && negb (lis (csh s))); [|discriminate]. inversion Hs; subst; clear Hs.
       cbn [csh] in Hst. cfields. cconsts. lia.
     + inversion Hs; subst; clear Hs. cbn [csh cthr] in *. cfields.
       destruct (Hkeep (PAd1 (length (cstates (csh s)))) Hst) as [[c [Hc Hl]]|[H|H]]; auto.
@@ -641,6 +676,8 @@ Proof.
               { intros ->. rewrite Ep in Hn. destruct Hn as [Hn|Hn]; discriminate. }
               destruct Hn as [Hn|Hn]; [exists n, (PCb1 c)|exists n, (PCb2 c)];
                 (split; [rewrite nth_error_upd_other by exact Hne'; exact Hn|reflexivity]).
+    + inversion Hs; subst; clear Hs. cbn [csh cthr] in *. apply Hkeep. exact Hst.
+    + inversion Hs; subst; clear Hs. cbn [csh cthr] in *. apply Hkeep. exact Hst.
 Qed.
 
 (* REACHES CLOSED (channel).  In every reachable state where Close has taken effect (the state is
